@@ -66,6 +66,14 @@ def sketch_merges(rng):
             v = rng.choice([1, 1, -1]) * 10 ** rng.uniform(-2, 3); lines.append("kadd r %s" % f2h(v))
         lines += ["kobs r", "q r %s" % f2h(0.5), "q r %s" % f2h(rng.random()), "kobs w"]
         out.append((Case("skm%d" % j, lines, {"kinds": [kr, kw]}), None))
+    # the library's own collapsing sketches (LogCollapsingLowest/HighestDenseDDSketch): BOTH stores are of the advertised kind
+    for j in range(30):
+        fam = rng.choice(["low", "high"]); n = rng.choice([2, 4, 16, 50]); a = rng.choice([0.01, 0.05, 0.02])
+        lines = ["knewc k log%s %s %d" % (fam, f2h(a), n), "knew t log:a:%s %s:%d %s:%d" % (f2h(a), fam, n, fam, n)]
+        vs = [rng.choice([-1, -1, 1]) * 10 ** rng.uniform(-2, 3) for _ in range(rng.choice([10, 40]))]; rng.shuffle(vs)
+        for v in vs: lines += ["kadd k " + f2h(v), "kadd t " + f2h(v)]
+        lines += ["kobs k", "kobs t", "q k %s" % f2h(0.0), "q k %s" % f2h(1.0), "q k %s" % f2h(rng.random())]
+        out.append((Case("skc%d" % j, lines, {"kinds": ["%s:%d" % (fam, n)]}), None))
     return out
 
 def bound_oracle(case, line, answer):
